@@ -123,9 +123,13 @@ def jobs(tier):
     out = []
     for op in OPS:
         for stop in STOPS:
-            out.append(dict(name='%s-%s' % (op, stop), op=op, stop=stop,
-                            B=3 if q else 4, budget_s=100 if q else 900,
-                            validate=1, crosscheck=0 if q else 10))
+            for pd in ((True, False) if op == 'divide' else (None,)):
+                out.append(dict(
+                    name='%s-%s%s' % (op, stop, '' if pd is None else
+                                      '-daughters%d' % pd),
+                    op=op, stop=stop, pd=pd, B=3 if q else 4,
+                    budget_s=100 if q else 900, validate=1,
+                    crosscheck=0 if q else 10))
     return out
 
 
@@ -212,7 +216,7 @@ def body(ctx, cfg):
     ivs = [ctx.int('iv', 1, B)]
     pq = ctx.flag('pq')
     flags = {'a': ctx.flag('pa'), 'q': pq, 'st': pq,
-             'daughters': ctx.flag('pd') if cfg['op'] == 'divide' else False}
+             'daughters': bool(cfg.get('pd'))}
     if not any(flags.values()):
         return          # the all-serial run is the reference itself
     CTX['empty_updates'] = ctx.flag('empty') if flags['a'] else False
